@@ -9,6 +9,9 @@ In == ndJsonDeserialize(IOEnv.IN_FILE)
 EncOne(r) ==
     IF r.type = "MessageL"
     THEN SetToSeq({[sides |-> e.sides, tree |-> e.tree, flat |-> T!FlattenV("Message", MsgValue(r.val, e.sides[1], e.sides[2]))] : e \in Encodings(r.val)})
+    ELSE IF r.type = "DecodeL"                       \* decode direction: a cell tree read under the schema, flattened
+    THEN LET d == T!Decode(r.nm, r.tree) IN
+         <<[sides |-> <<>>, ok |-> d.ok, flat |-> IF d.ok THEN T!FlattenV(r.nm, d.v) ELSE <<>>]>>
     ELSE IF r.type = "VmStackL" THEN <<[sides |-> <<>>, tree |-> Vm!EncStack(r.val), flat |-> <<>>]>>
     ELSE <<[sides |-> <<>>, tree |-> T!Encode(r.type, r.val), flat |-> T!FlattenV(r.type, r.val)]>>
 ASSUME ndJsonSerialize(IOEnv.OUT_FILE, [i \in 1..Len(In) |-> [id |-> In[i].id, encs |-> EncOne(In[i])]])
